@@ -40,10 +40,10 @@ for seed in seeds:
                 missing = [l.strip().split("MISSING ", 1)[1] for l in b.stdout.splitlines() if "MISSING " in l]
                 nodes = []
                 for m in missing:
-                    cls, name = m.split("::", 1)
+                    cls, tname = m.split("::", 1)
                     parts = cls.split(".")
                     k = max(i for i, x in enumerate(parts) if x.startswith("test_"))
-                    nodes.append("/".join(parts[:k + 1]) + ".py::" + "::".join(parts[k + 1:] + [name]))
+                    nodes.append("/".join(parts[:k + 1]) + ".py::" + "::".join(parts[k + 1:] + [tname]))
                 alone_ok = bool(nodes) and len(nodes) <= 20
                 if alone_ok:
                     for attempt in range(3):
